@@ -169,21 +169,60 @@ def run(tier, seed):
         bx = "None" if cfg["bounds"] is None else "(Some (%s, %s))" % (
             fls(np.broadcast_to(np.array(cfg["bounds"][0], dtype=float), (cfg["ndim"],))), fls(np.broadcast_to(np.array(cfg["bounds"][1], dtype=float), (cfg["ndim"],))))
         mt = cfg["max_time"] if cfg["max_time"] is not None else 1e25
+        if len(poss) > 3000:
+            # a run that went on for thousands of steps under limits of at most 60 steps has already failed the oracle above; keep the model input small
+            bad.append(dict(failed="a trajectory ends at the first step at which a limit is reached (ran %d steps under max_steps=%r, max_time=%r)" % (len(poss), cfg["max_steps"], cfg["max_time"]), case=info)); continue
         cases.append(tup(zlit(cfg["max_steps"]), fl(mt), nat(cfg["every"]), fl(cfg["dt"]), bx, fl(cfg["t0"]),
                          "[" + "; ".join(fls(p) for p in poss + [poss[-1]]) + "]", lst([tup(nat(k), fl(t)) for k, t in logged])))
         meta.append(info)
+    # ---- every member of an even-sampling tree obeys the box rule on its own history (children are spawned before anyone entered the box)
+    import p10, mudslide
+    from mudslide.models import scattering_models as MM
+    from mudslide.batch import BatchedTraj, TrajGenConst
+    from mudslide.even_sampling import EvenSamplingTrajectory
+    for it in range(3 if tier == "quick" else 30):
+        mname, x0, k, lo, hi = [("simple", -1.5, rng.uniform(9.0, 14.0), 2.0, 6.0), ("extended", -10.0, rng.uniform(8.0, 14.0), -1.0, 1.0), ("dual", -2.0, rng.uniform(15.0, 30.0), 3.0, 7.0)][it % 3]
+        with p10.Instr() as inst:
+            BatchedTraj(MM[mname](), TrajGenConst([x0], [k], 0, seed=rng.randrange(2 ** 31)), EvenSamplingTrajectory, samples=1, dt=rng.choice([5.0, 10.0]), bounds=[lo, hi], max_steps=600,
+                        spawn_stack=rng.choice([[2], [3], [2, 2]]), quadrature="gl").compute()
+            info = dict(cls="even-sampling tree", model=mname, x0=x0, k=k, bounds=[lo, hi], trajectories=len(inst.trajs))
+            res.count("es-tree-box-rule", len(inst.trajs)); res.case(("estree-box", mname, k, lo, hi), len(inst.trajs) > 1, info)
+            for t in inst.trajs:
+                if t.weight == 0.0: continue
+                xs = [float(sn["position"][0]) for sn in t.tracer]
+                inside = [lo < x_ < hi for x_ in xs]
+                first_in = inside.index(True) if any(inside) else None
+                left_at = next((j for j in range(first_in + 1, len(xs)) if not inside[j]), None) if first_in is not None else None
+                ended_by_steps = t.nsteps >= 600
+                if (left_at is None and not ended_by_steps) or (left_at is not None and left_at != len(xs) - 1):
+                    bad.append(dict(failed="a trajectory ends at the first step at which it has left the bounding box after having been inside it - never earlier and never later (even-sampling tree member %d: %d snapshots, first inside at %r, first outside afterwards at %r, last x=%r)"
+                                           % (t._v["id"], len(xs), first_in, left_at, xs[-1]), case=info)); break
+    # ---- snapshot self-consistency on real models: both representations (non-diagonal Hamiltonian), coherent and mixed density matrices
+    for it in range(8 if tier == "quick" else 80):
+        mname, x0, p0 = [("simple", [-1.0], [12.0]), ("dual", [-2.0], [25.0]), ("super", [-2.0], [9.0]), ("vibronic", [0.1, -0.2, 0.15, 0.05, 0.4], [0.5, -0.3, 0.2, 0.1, 2.0])][it % 4]
+        rep = ["diabatic", "adiabatic"][(it // 4) % 2]; cls = ["ehrenfest", "fssh", "cumulative"][it % 3] if rep == "adiabatic" else "ehrenfest"
+        model = MM[mname](representation=rep); n_ = model.nstates()
+        c_ = np.array([complex(rng.gauss(0, 1), rng.gauss(0, 1)) for _ in range(n_)]); c_ /= np.linalg.norm(c_)
+        C_ = dict(ehrenfest=mudslide.Ehrenfest, fssh=mudslide.TrajectorySH, cumulative=mudslide.TrajectoryCum)[cls]
+        tr = C_(model, x0, p0, np.outer(c_, c_.conj()), state0=rng.randrange(n_), dt=rng.choice([2.0, 5.0]), max_steps=rng.randint(5, 25), trace_every=rng.choice([1, 2, 3]), seed_sequence=rng.randrange(2 ** 31))
+        log = tr.simulate()
+        f = snapshot_oracle(cls, tr, log, np.array(model.mass))
+        res.count("snapshot-consistency/%s/%s" % (cls, rep)); res.case(("snapcons", mname, rep, cls, it), True)
+        if f: bad.append(dict(failed="every snapshot is self-consistent: " + f + " (%s on %s, %s representation, coherent density matrix)" % (cls, mname, rep), case=dict(model=mname, representation=rep, cls=cls)))
     failing, errors = run_case_check("C16", PRELUDE, "case16", "chk16", cases, per_file=120)
-    for e in errors:
-        res.violation("model evaluation failed (coqc)", dict(kind="coqc-error", log=e, no_failing_input_found=True))
     res.traces_validated = len(cases) - len(failing)
     corr = [meta[i] for i in failing[:4]]
     if bad:
         res.violation("implementation violates: " + bad[0]["failed"], dict(kind="oracle", failing_inputs=bad[:4], correspondence_failures=corr))
+    for e in errors:
+        res.violation("model evaluation failed (coqc)", dict(kind="coqc-error", log=e, no_failing_input_found=True))
+    if bad:
+        pass
     elif corr:
         res.violation("implementation differs from Model/Stopping.v (theorems no longer cover the code)",
                       dict(kind="correspondence", correspondence="Run/R16.chk16: Model/Stopping.simulate vs simulate()/continue_simulating()/trace()", failing_inputs=corr, no_failing_input_found=True))
     return finish(res, thm,
                   rule="random combinations of max_steps {-1,0,1,2,5,17,40,60}, max_time {absent, multiple of dt, non-multiple, already met, within +-1e-8 of a step}, trace_every 1..7, t0, dt (dyadic and non-dyadic), "
-                       "bounds {none, scalar, per-dimension}, start inside/outside, 1-3 dimensions (positions hit bounds exactly for dyadic data), 6 trajectory classes incl. AdiabaticMD and an even-sampling parent; "
+                       "bounds {none, scalar, per-dimension}, start inside/outside, 1-3 dimensions (positions hit bounds exactly for dyadic data), 6 trajectory classes incl. AdiabaticMD and an even-sampling parent; every member of even-sampling trees whose children are spawned before the box is entered; "
                        "step index of every collected snapshot observed by wrapping tracer.collect; non-trivial = distinct configuration",
                   assumptions=["positions after each step observed by wrapping advance_position; times compared bit-exactly (same sequence of float additions)"])
